@@ -74,6 +74,11 @@ def run(F, R):
     # offset + size_of::<T>() lies inside the device-config window (table shared with C13.G1)
     from .C13 import g1_bounds
     g1_bounds(F, RuleProxy(R, {'G1': 'W6'}, only=lambda inst: 'Pci' in inst))
+    # W9: the capabilities and BARs read are those of the requested function: the CAM/ECAM offset of (bus, device, function, register)
+    # follows the bit layout and is injective (C12.B3)
+    if not isinstance(R, RuleProxy):
+        from .C12 import b3_cam
+        guard(R, 'W9', 'cam-offset', lambda: b3_cam(F, RuleProxy(R, {'B3': 'W9'})))
     # W7: "inside an allocated memory BAR" rests on the BAR's kind and size as probed: the probing tables of C12.B1/B2
     # (not repeated when this module is itself run as a shared analysis of another property)
     if not isinstance(R, RuleProxy):
